@@ -466,7 +466,7 @@ func pushSingleRepo(
 			return fmt.Errorf("error starting receive pack session: %w", err)
 		}
 		for _, u := range updates {
-			if v, ok := um[u.Dst]; ok {
+			if v, ok := um[u.Dst]; ok && v != nil {
 				u.ErrMsg = v.ErrMsg
 			} else {
 				u.ErrMsg = "remote failed to report status"
